@@ -85,6 +85,31 @@ impl InternalConnectionError {
 //@end
 }
 
+// vstd's `From` contract is `obeys_from_spec() ==> r == from_spec(v)`: the spec side of the two conversions
+impl vstd::std_specs::convert::FromSpecImpl<InternalConnectionError> for ErrorOrigin {
+    open spec fn obeys_from_spec() -> bool { true }
+    open spec fn from_spec(v: InternalConnectionError) -> Self { ErrorOrigin::Internal(v) }
+}
+impl vstd::std_specs::convert::FromSpecImpl<ConnectionErrorIncoming> for ErrorOrigin {
+    open spec fn obeys_from_spec() -> bool { true }
+    open spec fn from_spec(v: ConnectionErrorIncoming) -> Self { ErrorOrigin::Quic(v) }
+}
+impl From<InternalConnectionError> for ErrorOrigin {
+//@extract h3/src/error/internal_error.rs :: impl From<InternalConnectionError> for ErrorOrigin :: fn from
+//@tag C04
+//@ret r
+//@sig
+        ensures r == ErrorOrigin::Internal(error),
+//@end
+}
+impl From<ConnectionErrorIncoming> for ErrorOrigin {
+//@extract h3/src/error/internal_error.rs :: impl From<ConnectionErrorIncoming> for ErrorOrigin :: fn from
+//@tag C04
+//@ret r
+//@sig
+        ensures r == ErrorOrigin::Quic(error),
+//@end
+}
 /// the code an error raised by the connection driver carries on the wire (None: an error that came *from* the transport)
 pub open spec fn origin_code(e: ErrorOrigin) -> Option<u64> {
     match e { ErrorOrigin::Internal(i) => Some(i.code.code), ErrorOrigin::Quic(_) => None }
@@ -319,5 +344,7 @@ use config::Config;
 //@ghost-field g_uni: Ghost<Seq<(int, UniDisp)>>
 //@ghost-field g_stops: Ghost<Seq<(int, u64)>>
 //@end
+// source paths used by the extracted bodies (`stream::PollTypeError::…`, rule R6)
+pub mod stream { pub use super::PollTypeError; }
 pub enum UniKind { Control, Push, Encoder, Decoder, WebTransportUni(u64), Unknown }
 pub enum UniDisp { ClosedEarly, Resolved(UniKind) }
